@@ -95,10 +95,12 @@ func decodeWithContext(
 		// DecodeError use the opaque type.
 		return nil
 	}
-	if len(m.Tags) == 0 && len(redactedTags) == 0 {
+	if len(m.Tags) == 0 {
 		// There are no tags stored. Either there are no tags stored, or
 		// we received some new version of the protobuf message which does
-		// things differently. Again, use the opaque type.
+		// things differently. Again, use the opaque type (which keeps the
+		// redacted tags as reportable details): a withContext without a
+		// tag buffer cannot be inspected or re-encoded.
 		return nil
 	}
 	// Convert the k/v pairs.
